@@ -313,6 +313,32 @@ theorem gaussQuad_not_additive_witness :
       ≠ gaussQuad (fun x : ℚ => x * x) (1 / 100000) [[(0, 2)]] 0 2 :=
   Cherab.Lemmas.LineShape.gaussQuad_not_additive_witness
 
+/-! ### `GaussianQuadrature` setter histories: construct → set* → use = fresh(final) -/
+
+/-- after any history of `min_order` / `max_order` / `relative_tolerance` setter calls, accepted or rejected, the
+object (parameters *and* flat roots/weights cache) is the freshly constructed integrator with the final parameters -/
+theorem gq_history_eq_fresh (table : Nat → List (α × α)) (g : GQ α) (hg : GQInv table g) (ops : List (GQOp α)) :
+    gqRun table g ops =
+      gqNew table (gqRun table g ops).minO (gqRun table g ops).maxO (gqRun table g ops).rtol :=
+  Cherab.Lemmas.LineShape.gq_history_eq_fresh table g hg ops
+
+/-- a setter that raises `ValueError` leaves the object untouched -/
+theorem gqSet_rejects_atomically (table : Nat → List (α × α)) (g : GQ α) (op : GQOp α)
+    (h : (gqSet table g op).2 = true) : (gqSet table g op).1 = g :=
+  Cherab.Lemmas.LineShape.gqSet_rejects_atomically table g op h
+
+/-- `evaluate` on the flat cache (offset `ibegin`) = order stepping over the orders `min … max` of the current
+parameters, given that `roots_legendre(k)` returns `k` nodes -/
+theorem gqEval_eq_gaussQuad (table : Nat → List (α × α)) (htab : ∀ k, (table k).length = k) (f : α → α) (g : GQ α)
+    (hg : GQInv table g) (a b : α) :
+    gqEval f g a b = gaussQuad f g.rtol (rulesFor table g.minO g.maxO) a b :=
+  Cherab.Lemmas.LineShape.gqEval_eq_gaussQuad table htab f g hg a b
+
+/-- integrands that every rule of the range integrates exactly are integrated exactly -/
+theorem gaussQuad_exact (f : α → α) (rtol a b J : α) (rules : List (List (α × α))) (hne : rules ≠ [])
+    (h : ∀ r ∈ rules, glRule f (0.5 * (a + b)) (0.5 * (b - a)) r = J) : gaussQuad f rtol rules a b = J :=
+  Cherab.Lemmas.LineShape.gaussQuad_exact f rtol a b J rules hne h
+
 /-! ### non-vacuity: the hypotheses are satisfiable and the conclusions non-trivial (α = ℚ) -/
 
 /-- a monotone, odd function bounded by 1 -/
@@ -361,5 +387,16 @@ example : ∀ a b c : ℚ, (fun (_ _ a b : ℚ) => b - a) 0 0 a b + (fun (_ _ a 
 /-- post-fix Lorentzian with a (fake, linear) cumulative `G wl hw x = (x − wl)/hw` and `normC = 2·cut·2`: spanning window gets R -/
 example : integral (addLorentzianLineCdf Fq (fun wl hw x => (x - wl) / hw) 8 2 3 4 (1 / 2) spq) = integral spq + 3 := by
   decide +kernel
+
+/-- a setter history with accepted and rejected calls: raise min to 3, max := 2 rejected, rtol := 0 rejected, min := 2 -/
+def tabq (k : Nat) : List (ℚ × ℚ) := (List.range k).map fun i => ((i : ℚ) / k - 1 / 2, 2 / k)
+def histq : List (GQOp ℚ) := [.setMin 3, .setMax 2, .setRtol 0, .setMin 2, .setMax 5, .setMin 0]
+example : GQInv tabq (gqNew tabq 1 4 (1 / 100)) := gqNew_inv tabq 1 4 (1 / 100) (by norm_num) (by norm_num) (by norm_num)
+example : ((gqRun tabq (gqNew tabq 1 4 (1 / 100)) histq).minO, (gqRun tabq (gqNew tabq 1 4 (1 / 100)) histq).maxO) = (2, 5) := by
+  decide +kernel
+example : (gqSet tabq (gqNew tabq 3 4 (1 / 100)) (.setMax 2)).2 = true := by decide +kernel
+example : ∀ k, (tabq k).length = k := fun k => by simp [tabq]
+example : gqEval (fun x => x * x) (gqRun tabq (gqNew tabq 1 4 (1 / 100)) histq) 0 1
+    = gqEval (fun x => x * x) (gqNew tabq 2 5 (1 / 100)) 0 1 := by decide +kernel
 
 end Cherab.Props.C02
